@@ -86,15 +86,41 @@ class Built:
             self.sys[j] = build_system(self.specs[j])
         return self.sys[j]
 
-    def tensor(self, j, th):
+    def tensor(self, j, th, unit=None):
         import quantarhei as qr
-        key = (j, th)
+        key = (j, th, unit)
         if key not in self.tensors:
             agg = self.system(j)
-            name, kw = THEORIES[th]
-            ta = agg.get_SystemBathInteraction().TimeAxis
-            self.tensors[key] = agg.get_RelaxationTensor(ta, relaxation_theory=name, **kw)
+            self.tensors[key] = relaxation_tensor(agg, th, unit)
         return self.tensors[key]
+
+
+def relaxation_tensor(agg, th, unit):
+    """get_RelaxationTensor, optionally requested inside a units context (a cut-off is then meant in those units)."""
+    import quantarhei as qr
+    name, kw = THEORIES[th]
+    ta = agg.get_SystemBathInteraction().TimeAxis
+    if unit is None:
+        return agg.get_RelaxationTensor(ta, relaxation_theory=name, **kw)
+    with qr.energy_units(unit):
+        return agg.get_RelaxationTensor(ta, relaxation_theory=name, **kw)
+
+
+def context_for(expr_ctx, ham):
+    """Context manager for a propagation requested inside a basis context (or a null context)."""
+    import contextlib
+    import quantarhei as qr
+    if not expr_ctx:
+        return contextlib.nullcontext()
+    if expr_ctx["kind"] == "ham":
+        return qr.eigenbasis_of(ham)
+    g = numpy.random.Generator(numpy.random.PCG64(expr_ctx["seed"]))
+    a = g.uniform(-1, 1, size=(ham.dim, ham.dim))
+    a = (a + a.T) / 2.0
+    a[0, 1:] = 0.0       # the ground state stays apart (the rotating-wave blocks are not mixed)
+    a[1:, 0] = 0.0
+    a[0, 0] = -5.0
+    return qr.eigenbasis_of(qr.qm.SelfAdjointOperator(data=a))
 
 
 def evaluate(expr, systems, shared=None):
@@ -103,7 +129,7 @@ def evaluate(expr, systems, shared=None):
     B = shared if shared is not None else Built(systems)
     kind = expr["kind"]
     if kind == "tensor":
-        RT, ham = B.tensor(expr["sys"], expr["th"]) if shared is None else shared.new_tensor(expr["sys"], expr["th"])
+        RT, ham = B.tensor(expr["sys"], expr["th"], expr.get("unit")) if shared is None else shared.new_tensor(expr["sys"], expr["th"], expr.get("unit"))
         out = tensor_fields(RT)
         out["H"] = numpy.array(ham.data)
         return out
@@ -120,10 +146,11 @@ def evaluate(expr, systems, shared=None):
         rho = B.state(expr["prop"]["sys"], expr["state"]) if shared is not None else qr.ReducedDensityMatrix(data=state_array(dim, expr["state"]))
         if shared is None and expr["nref_setting"] > 1:
             prop.setDtRefinement(expr["nref_setting"])
-        if expr["nref_arg"] > 1:
-            ev = prop.propagate(rho, Nref=expr["nref_arg"])
-        else:
-            ev = prop.propagate(rho)
+        with context_for(expr.get("ctx"), agg.get_Hamiltonian()):
+            if expr["nref_arg"] > 1:
+                ev = prop.propagate(rho, Nref=expr["nref_arg"])
+            else:
+                ev = prop.propagate(rho)
         return {"rhot": numpy.array(ev.data)}
     if kind == "propagate_sv":
         agg = B.system(expr["sys"])
@@ -141,11 +168,29 @@ def evaluate(expr, systems, shared=None):
         if shared is not None:
             prop = B.pop_prop(expr)
         else:
-            prop = PopulationPropagator(qr.TimeAxis(0.0, expr["nt"], expr["dt"]), agg.get_RedfieldRateMatrix())
+            prop = PopulationPropagator(qr.TimeAxis(0.0, expr["nt"], expr["dt"]), agg.get_RedfieldRateMatrix().data)
         dim = agg.get_Hamiltonian().dim
         p0 = numpy.zeros(dim)
         p0[1 + expr["state"]["k"] % (dim - 1)] = 1.0
         return {"pops": numpy.array(prop.propagate(p0))}
+    if kind == "pop_matrix":
+        from quantarhei.qm.propagators.poppropagator import PopulationPropagator
+        agg = B.system(expr["sys"])
+        if shared is not None:
+            prop = B.pop_prop(expr)
+        else:
+            prop = PopulationPropagator(qr.TimeAxis(0.0, expr["nt"], expr["dt"]), agg.get_RedfieldRateMatrix().data)
+        sub = qr.TimeAxis(0.0, max(2, expr["nt"] // expr["m"]), expr["dt"] * expr["m"])
+        res = prop.get_PropagationMatrix(sub, corrections=expr["corr"])
+        out = {}
+        if isinstance(res, tuple):
+            out["U"] = numpy.array(res[0])
+            rest = res[1] if isinstance(res[1], tuple) else (res[1],)
+            for n, c in enumerate(rest):
+                out["c%d" % n] = numpy.array(c)
+        else:
+            out["U"] = numpy.array(res)
+        return out
     if kind == "propagate_heom":
         from quantarhei.qm.liouvillespace.heom import KTHierarchy, KTHierarchyPropagator
         agg = B.system(expr["sys"])
@@ -159,7 +204,7 @@ def evaluate(expr, systems, shared=None):
         ev = kp.propagate(rho)
         return {"rhot": numpy.array(ev.data)}
     if kind == "eso":
-        RT, ham = B.tensor(expr["sys"], expr["th"]) if shared is None else shared.get_tensor(expr["sys"], expr["th"])
+        RT, ham = B.tensor(expr["sys"], expr["th"], expr.get("unit")) if shared is None else shared.get_tensor(expr["sys"], expr["th"])
         U = qr.qm.EvolutionSuperOperator(time=qr.TimeAxis(0.0, expr["nt"], expr["dt"]), ham=ham, relt=RT, mode="all")
         U.set_dense_dt(expr["dense"])
         U.calculate()
@@ -173,7 +218,7 @@ def make_rdm_prop(B, pexpr):
     axis = qr.TimeAxis(0.0, pexpr["nt"], pexpr["dt"])
     if pexpr["th"] is None:
         return qr.ReducedDensityMatrixPropagator(axis, agg.get_Hamiltonian())
-    RT, ham = B.tensor(pexpr["sys"], pexpr["th"])
+    RT, ham = B.tensor(pexpr["sys"], pexpr["th"], pexpr.get("unit"))
     return qr.ReducedDensityMatrixPropagator(axis, ham, RTensor=RT)
 
 
@@ -228,7 +273,8 @@ class World:
     required_probes = ["propagator_reused", "state_reused", "tensor_reused_by_two_propagators", "heom_reused",
                        "system_used_by_two_theories", "time_dependent_tensor", "operator_form_tensor", "cutoff_theory",
                        "refinement_setting_sticky", "sv_reused", "pop_reused", "eso_after_propagation", "in_between_computation",
-                       "same_call_repeated"]
+                       "same_call_repeated", "propagation_matrix_with_corrections", "propagation_inside_basis_context",
+                       "same_propagator_in_two_different_contexts", "tensor_requested_inside_units_context"]
     required_faults = []
     components = {
         "real": ["Aggregate/Molecule builders", "OpenSystem.get_RelaxationTensor (stR TI/TD, operator form, secular; stF TI/TD; cRF with cut-off)",
@@ -263,14 +309,15 @@ class World:
         n = rng.randint(3, 12)
         ops = []
         kinds = ["tensor", "tensor", "make_rdm", "make_rdm", "propagate_rdm", "propagate_rdm", "propagate_rdm", "set_ref", "rates",
-                 "thermal", "propagate_sv", "propagate_pop", "make_heom", "propagate_heom", "propagate_heom", "eso"]
+                 "thermal", "propagate_sv", "propagate_pop", "pop_matrix", "make_heom", "propagate_heom", "propagate_heom", "eso"]
         if rng.random() < 0.5:
-            kinds = [k for k in kinds if k not in rng.sample(["propagate_sv", "propagate_pop", "make_heom", "eso", "rates", "thermal"], 3)]
+            kinds = [k for k in kinds if k not in rng.sample(["propagate_sv", "propagate_pop", "pop_matrix", "make_heom", "eso", "rates", "thermal"], 3)]
         for _ in range(n):
             k = rng.choice(kinds)
             op = {"op": k, "sys": rng.randrange(nsys), "a": rng.randrange(16), "b": rng.randrange(16)}
             if k == "tensor":
                 op["th"] = rng.choice(ths)
+                op["unit"] = rng.choice([None, None, "1/cm", "1/cm", "eV"])
             elif k == "make_rdm":
                 op["nt"] = rng.choice([20, 50, 100])
                 op["mult"] = rng.choice([1, 1, 2])
@@ -279,12 +326,15 @@ class World:
                 op["state"] = {"kind": rng.choice(["site", "site", "coh"]), "k": rng.randrange(4)}
                 op["nref_arg"] = rng.choice([1, 1, 1, 2, 3])
                 op["new_state"] = rng.random() < 0.4
+                op["ctx"] = rng.choice([None, None, None, {"kind": "ham"}, {"kind": "other", "seed": rng.randrange(4)}])
             elif k == "set_ref":
                 op["n"] = rng.choice([1, 2, 3, 5])
-            elif k in ("propagate_sv", "propagate_pop"):
+            elif k in ("propagate_sv", "propagate_pop", "pop_matrix"):
                 op["state"] = {"kind": "site", "k": rng.randrange(4)}
                 op["nt"] = rng.choice([20, 50])
-                op["new"] = rng.random() < 0.4
+                op["new"] = rng.random() < 0.3
+                op["corr"] = rng.choice([-1, -1, 0, 1, 2])
+                op["m"] = rng.choice([1, 2, 5])
             elif k == "make_heom":
                 op["depth"] = rng.choice([1, 2, 2, 3])
                 op["nt"] = rng.choice([20, 40])
@@ -354,8 +404,9 @@ class Runner:
             j = op["sys"] % len(S)
             spec = S[j]
             if k == "tensor":
-                expr = {"kind": "tensor", "sys": j, "th": op["th"]}
-                tensors.append((j, op["th"]))
+                unit = op.get("unit")
+                expr = {"kind": "tensor", "sys": j, "th": op["th"], "unit": unit}
+                tensors.append((j, op["th"], unit))
                 plan.append(("tensor", expr, len(tensors) - 1))
             elif k == "rates":
                 plan.append(("pure", {"kind": "rates", "sys": j}, None))
@@ -369,13 +420,17 @@ class Runner:
                     tslot = [n for n, t in enumerate(tensors) if t[0] == j][op["a"] % len(mine)]
                     th = tensors[tslot][1]
                 nt = min(op["nt"], spec["nt"] // op["mult"])
-                props.append({"sys": j, "th": th, "tslot": tslot, "nt": nt, "dt": spec["dt"] * op["mult"], "nref": 1})
+                props.append({"sys": j, "th": th, "unit": None if tslot is None else tensors[tslot][2], "tslot": tslot, "nt": nt,
+                              "dt": spec["dt"] * op["mult"], "nref": 1})
                 plan.append(("make_rdm", None, len(props) - 1))
             elif k == "set_ref":
                 if not props:
                     plan.append(("noop", None, None))
                     continue
                 pi = op["a"] % len(props)
+                if props[pi]["th"] is not None and THEORIES[props[pi]["th"]][1].get("time_dependent"):
+                    plan.append(("noop", None, None))     # a time-dependent tensor fixes the step; refinement is not generated
+                    continue
                 props[pi]["nref"] = op["n"]
                 plan.append(("set_ref", op["n"], pi))
             elif k == "propagate_rdm":
@@ -388,13 +443,16 @@ class Runner:
                 td = P["th"] is not None and THEORIES[P["th"]][1].get("time_dependent")
                 nref_arg = 1 if td else op["nref_arg"]
                 nref_setting = 1 if td else P["nref"]
-                expr = {"kind": "propagate_rdm", "prop": {"sys": P["sys"], "th": P["th"], "nt": P["nt"], "dt": P["dt"]},
-                        "state": op["state"], "nref_setting": nref_setting, "nref_arg": nref_arg}
+                expr = {"kind": "propagate_rdm", "prop": {"sys": P["sys"], "th": P["th"], "unit": P["unit"], "nt": P["nt"], "dt": P["dt"]},
+                        "state": op["state"], "nref_setting": nref_setting, "nref_arg": nref_arg, "ctx": op.get("ctx")}
                 if nref_arg > 1:
                     P["nref"] = nref_arg            # documented: propagate(Nref>1) sets the refinement
                 plan.append(("propagate_rdm", expr, (pi, bool(op["new_state"]))))
             elif k in ("propagate_sv", "propagate_pop"):
                 expr = {"kind": k, "sys": j, "nt": op["nt"], "dt": spec["dt"], "state": op["state"]}
+                plan.append((k, expr, bool(op["new"])))
+            elif k == "pop_matrix":
+                expr = {"kind": "pop_matrix", "sys": j, "nt": op["nt"], "dt": spec["dt"], "corr": op["corr"], "m": op["m"]}
                 plan.append((k, expr, bool(op["new"])))
             elif k == "make_heom":
                 heoms.append({"sys": j, "depth": op["depth"], "nt": op["nt"], "dt": 1.0})
@@ -413,7 +471,8 @@ class Runner:
                     plan.append(("noop", None, None))
                     continue
                 tslot = mine[op["a"] % len(mine)]
-                expr = {"kind": "eso", "sys": j, "th": tensors[tslot][1], "nt": op["nt"], "dt": spec["dt"] * 5, "dense": op["dense"]}
+                expr = {"kind": "eso", "sys": j, "th": tensors[tslot][1], "unit": tensors[tslot][2], "nt": op["nt"], "dt": spec["dt"] * 5,
+                        "dense": op["dense"]}
                 plan.append(("eso", expr, tslot))
             else:
                 plan.append(("noop", None, None))
@@ -429,20 +488,36 @@ class Runner:
                  None if H.rwa_indices is None else [int(x) for x in H.rwa_indices], H.get_current_basis())
         for i in range(sbi.N):
             parts.append(numpy.array(sbi.get_coft(i, i))[:50])
-        return fingerprint(*parts) + repr(flags)
+        return (parts, repr(flags))
 
     def fp_all(self):
+        """Observable data (arrays, compared up to rounding) and flags (compared exactly) of everything in the pool."""
         out = {}
         for j, agg in self.shared.sys.items():
             out["sys%d" % j] = self.fp_system(agg)
         for n, (RT, ham) in enumerate(self.shared.tensor_list):
             f = tensor_fields(RT)
-            out["tensor%d" % n] = fingerprint(*[f[k] for k in sorted(f)]) + repr((RT.get_current_basis(), bool(RT.is_basis_protected)))
+            out["tensor%d" % n] = ([f[k] for k in sorted(f)], repr((RT.get_current_basis(), bool(RT.is_basis_protected))))
         for key, rho in self.shared.states.items():
-            out["state%s" % (key,)] = fingerprint(numpy.array(rho.data)) + repr(rho.get_current_basis())
+            out["state%s" % (key,)] = ([numpy.array(rho.data)], repr(rho.get_current_basis()))
+        for key, pp in self.shared.pop_props.items():
+            out["pop%s" % (key,)] = ([numpy.array(pp.KK)], "")
         for n, hy in enumerate(self.shared.heom_hy):
-            out["heom%d" % n] = fingerprint(numpy.array(hy.hinds), numpy.array(hy.Gamma)) + repr(hy.hsize)
+            out["heom%d" % n] = ([numpy.array(hy.hinds), numpy.array(hy.Gamma)], repr(hy.hsize))
         return out
+
+    @staticmethod
+    def same_inputs(a, b):
+        if a is None or b is None or a[1] != b[1] or len(a[0]) != len(b[0]):
+            return False
+        for x, y in zip(a[0], b[0]):
+            x, y = numpy.asarray(x), numpy.asarray(y)
+            if x.shape != y.shape:
+                return False
+            sc = max(1e-300, float(numpy.max(numpy.abs(x))) if x.size else 1.0)
+            if not close(x.astype(complex), y.astype(complex), rtol=1e-12, scale=sc):
+                return False
+        return True
 
     def manager_state(self):
         m = self.m
@@ -515,7 +590,9 @@ class Runner:
                 for name in ref:
                     a, b = numpy.asarray(got[name]), numpy.asarray(ref[name])
                     sc = max(1e-300, float(numpy.max(numpy.abs(b))) if b.size else 1.0)
-                    check(a.shape == b.shape and close(a.astype(complex), b.astype(complex), rtol=TOL, scale=sc), "result-depends-on-history",
+                    same = a.shape == b.shape and (numpy.array_equal(a, b, equal_nan=True) or
+                                                   close(a.astype(complex), b.astype(complex), rtol=TOL, scale=sc))
+                    check(same, "result-depends-on-history",
                           lambda: "op %d (%s %s): result '%s' differs from the same call on fresh inputs: %s"
                           % (i, k, json.dumps(expr, sort_keys=True)[:200], name,
                              maxdiff(a.astype(complex), b.astype(complex)) if a.shape == b.shape else "shape %r vs %r" % (a.shape, b.shape)))
@@ -532,6 +609,8 @@ class Runner:
                         self.ctx.probe("operator_form_tensor")
                     if "coupling_cutoff" in kw:
                         self.ctx.probe("cutoff_theory")
+                    if expr.get("unit"):
+                        self.ctx.probe("tensor_requested_inside_units_context")
                     u = used.setdefault("systh%d" % expr["sys"], set())
                     u.add(name)
                     if len(u) >= 2:
@@ -541,6 +620,12 @@ class Runner:
                         reuse += 1
                 elif k == "propagate_rdm":
                     pi, _ = aux
+                    if expr.get("ctx"):
+                        self.ctx.probe("propagation_inside_basis_context")
+                        cs = used.setdefault("ctxs%d" % pi, set())
+                        cs.add(json.dumps(expr["ctx"], sort_keys=True))
+                        if len(cs) >= 2:
+                            self.ctx.probe("same_propagator_in_two_different_contexts")
                     used["prop%d" % pi] = used.get("prop%d" % pi, 0) + 1
                     if used["prop%d" % pi] >= 2:
                         self.ctx.probe("propagator_reused")
@@ -558,10 +643,12 @@ class Runner:
                     if self.shared.last_prop_reused:
                         self.ctx.probe("sv_reused")
                         reuse += 1
-                elif k == "propagate_pop":
+                elif k in ("propagate_pop", "pop_matrix"):
                     if self.shared.last_prop_reused:
                         self.ctx.probe("pop_reused")
                         reuse += 1
+                    if k == "pop_matrix" and expr["corr"] >= 0:
+                        self.ctx.probe("propagation_matrix_with_corrections")
                 elif k == "eso":
                     if any(x.startswith("prop") for x in used):
                         self.ctx.probe("eso_after_propagation")
@@ -573,7 +660,7 @@ class Runner:
             # inputs unchanged: everything that existed before the op
             after = self.fp_all()
             for name, f in before.items():
-                check(after.get(name) == f, "input-changed",
+                check(self.same_inputs(after.get(name), f), "input-changed",
                       lambda: "op %d (%s): object '%s' passed in or kept in the pool changed (fingerprint of its public data / flags)" % (i, k, name))
             check(self.manager_state() == m0, "manager-state-changed",
                   lambda: "op %d (%s): Manager state %r -> %r" % (i, k, m0, self.manager_state()))
@@ -604,11 +691,9 @@ class Shared:
             self.sys[j] = build_system(self.specs[j])
         return self.sys[j]
 
-    def new_tensor(self, j, th):
+    def new_tensor(self, j, th, unit=None):
         agg = self.system(j)
-        name, kw = THEORIES[th]
-        ta = agg.get_SystemBathInteraction().TimeAxis
-        RT, ham = agg.get_RelaxationTensor(ta, relaxation_theory=name, **kw)
+        RT, ham = relaxation_tensor(agg, th, unit)
         self.tensor_list.append((RT, ham))
         return RT, ham
 
@@ -673,7 +758,7 @@ class Shared:
         k, e, new = self.current
         key = (expr["sys"], expr["nt"])
         if new or key not in self.pop_props:
-            self.pop_props[key] = PopulationPropagator(qr.TimeAxis(0.0, expr["nt"], expr["dt"]), self.system(expr["sys"]).get_RedfieldRateMatrix())
+            self.pop_props[key] = PopulationPropagator(qr.TimeAxis(0.0, expr["nt"], expr["dt"]), self.system(expr["sys"]).get_RedfieldRateMatrix().data)
             self.last_prop_reused = False
         else:
             self.last_prop_reused = True
